@@ -878,7 +878,8 @@ impl Formula {
                     if term_variables.contains(&variable) {
                         let fresh_variable = Variable::sequence(&variable)
                             .find(|candidate| {
-                                !term_variables.contains(candidate)
+                                *candidate != var
+                                    && !term_variables.contains(candidate)
                                     && !formula_variables.contains(candidate)
                             })
                             .unwrap();
